@@ -598,8 +598,13 @@ class ExprMixin:
         raise Unsupported("comparison %s" % type(op).__name__)
 
     def contains(self, cont, x, st, cx):
+        if isinstance(cont, (VUnion, VRec)) and isinstance(x, VStr):
+            cont = self.narrow(st, cont, Str)
         if isinstance(cont, VStr):
             return z3.Contains(cont.t, coerce(x, Str).t)
+        if isinstance(cont, VTuple):
+            cont = VTuple([self.as_type(i) for i in cont.items], cont.is_list)
+            x = self.as_type(x)
         if isinstance(cont, (VList, VTuple)):
             return list_contains(cont, x)
         if isinstance(cont, VIter):
@@ -788,6 +793,8 @@ class ExprMixin:
             return v.items
         if isinstance(v, VConcDict):
             return [k for k, _ in v.items]
+        if isinstance(v, VStr) and v.conc() is not None:
+            return [VStr(ch) for ch in v.conc()]
         if isinstance(v, VList):
             n = z3.simplify(v.sort.len(v.t))
             if z3.is_int_value(n):
